@@ -259,3 +259,12 @@ Theorem C19_takemerge_fine_members_stopped max n qs fins s : 1 <= max -> xf_reac
                      \/ (xf_q (xfs_th s j) = [] /\ fins j <> FinNone /\ xfs_stopped s j = false).
 Proof. exact (@takemerge_fine_members_stopped max n qs fins s). Qed.
 Print Assumptions C19_takemerge_fine_members_stopped.
+
+(** the two halves together at that granularity: every run ends, and unless a delivery overtook the greeting
+    (KF4) the finished trace passes the whole check *)
+Theorem C19_takemerge_fine_always_passes max n qs fins sch fuel :
+  1 <= max -> fuel >= takemerge_fine_fuel n qs n ->
+  let s := run_full (xf_step max n) xf_finished n sch fuel (xf_init n qs fins) in
+  before_greet_ok (rev (xfs_tr s)) = true -> takemerge_check max (rev (xfs_tr s)) = [].
+Proof. exact (@takemerge_fine_always_passes max n qs fins sch fuel). Qed.
+Print Assumptions C19_takemerge_fine_always_passes.
